@@ -22,6 +22,11 @@ SpiderMonkey do, and the first two are the places where the ES2024 text leaves [
     module that has already finished.  Modelled as in ES2025 ([[AsyncEvaluationOrder]] = done after
     completion): a finished module is not waited for.
 
+Cross-validation (authoring time, oracle/c17-node-xval.json): node v20 `vm.SourceTextModule` agrees on 525,016 of 526,012
+configurations of the n <= 3 space; V8 aborts on a CHECK on 756; the remaining 240 are one V8 deviation from the text: Evaluate()
+of a module that is errored itself but is not the root of its failed cycle is answered by V8 with the module's OWN error, by
+the specification (step 3: go to [[CycleRoot]]) -- and by this model -- with the root's error (`perturb="v8err"` is V8's reading).
+
 Module bodies (mirrors `module_source` in harness/crates/vc17/src/main.rs): module X declares
 `export let vX = 1`, prints `pre:X` followed by one read of every dependency's live binding
 (`TDZ` when the dependency's body has not started), then behaves as
@@ -170,6 +175,14 @@ class World:
     # ---------------------------------------------------------------- Evaluate()
     def evaluate(self, m):
         _ck(self.status[m] in (LINKED, ASYNC, EVALUATED), "Evaluate: status")
+        if self.perturb == "v8err" and self.status[m] == EVALUATED and self.error[m] is not None:
+            # V8's reading (v8::internal::Module::Evaluate, status kErrored): an errored module answers with its own capability or
+            # with a fresh promise rejected with ITS OWN error, without going to the cycle root (not the specification's step 3)
+            if self.cap[m] is not None:
+                return self.cap[m]
+            p = Promise()
+            self.settle(p, "R", self.error[m])
+            return p
         if self.status[m] in (ASYNC, EVALUATED):
             if "nostore" in self.bugs:
                 # engine: looks at the capability of the module itself, not of its cycle root
